@@ -352,12 +352,13 @@ def table(pid, tier):
         insts = [stop_race(tier, "block", v) for v in vs] + ([] if q else [stop_race(tier, "latest", 0), stop_race(tier, "oldest", 0)])
         inv = ["C04_Barrier", "C04_ErrNeverReduced", "C10_Flush"]
         T = dict(mc=[(i, inv, ["C04_Final"]) for i in insts], gen=[(i, 900 if q else 10000) for i in insts[:2]],
-                 free=[(i, 80 if q else 500) for i in insts])
+                 free=[(i, 80 if q else 500) for i in insts], live=[(insts[0], ["Live_ClientsDone", "Live_StopReturns"])])
     elif pid == "C05":
         insts = [burst(tier, "block", 1)] + ([] if q else [burst(tier, "block", 2)])
         inv = ["C05_Bound", "C05_NoLoss", "C01_ExactlyOnce"]
         T = dict(mc=[(i, inv, []) for i in insts], gen=[(insts[0], 1500 if q else 20000)],
-                 free=[(i, 100 if q else 800) for i in insts], live=[(insts[0], "C05_Live")])
+                 free=[(i, 100 if q else 800) for i in insts],
+                 live=[(i, ["Live_ClientsDone", "Live_SendResumes"]) for i in insts])
     elif pid == "C06":
         insts = [burst(tier, "oldest", 1), burst(tier, "latest", 1)] + ([] if q else [burst(tier, "oldest", 2), burst(tier, "latest", 2)])
         inv = ["C06_NeverBlocks", "C06_Conservation", "C06_ErrIffDropped", "C06_Exact", "C05_Bound", "C02_Order"]
@@ -398,7 +399,8 @@ def table(pid, tier):
         insts = [api_mix(tier, k) for k in ks]
         inv = ["C13_NoDeadlock"]
         T = dict(mc=[(i, inv, []) for i in insts], gen=[(i, 500 if q else 4000) for i in insts[:3 if q else 10]],
-                 free=[(i, 40 if q else 200) for i in insts])
+                 free=[(i, 40 if q else 200) for i in insts],
+                 live=[(i, ["Live_ClientsDone", "Live_StopReturns"]) for i in (insts[1:3] if q else insts[:12])])
     elif pid == "C14":
         insts = [iterator(tier, False), iterator(tier, True)]
         inv = ["C14_Stream", "C14_Detached", "C13_NoDeadlock"]
